@@ -1,6 +1,7 @@
 /- Line-protocol driver for the geno views model, C12 (see harness/c12.py). -/
 import Driver.C11Json
 import PgModel.Geno.Views
+import PgModel.Geno.DictCond
 open Pg Pg.Geno Pg.GenoJson
 
 partial def nestToJ : Nest → J
@@ -50,13 +51,16 @@ def viewsOf (g : Spec) (d : DNA) : J :=
          ("from_numbers", optDnaToJ (g.fromNumbers fl)),
          ("parse_nested", optDnaToJ (parse (toNested d))),
          ("parse_compact", optDnaToJ (parse (toCompactDeep d))),
+         ("verbose", .obj [("value", valToJ (toVerbose d).1), ("children", .arr ((toVerbose d).2.map nestToJ))]),
+         ("parse_verbose", optDnaToJ (parseVerbose (toVerbose d))),
          ("valid", .bool (g.valid d))] ++
         (match g.annot d with
          | none => [("beliefs", .null)]
          | some b => [("beliefs", .arr (beliefs b)),
                       ("dicts", .arr (optsGrid.map fun o => dictToJ (toDict o b))),
                       ("from_dicts", .arr (optsGrid.map fun o =>
-                        optDnaToJ (g.fromDict (o.valueType == 3) (toDict o b))))]))
+                        optDnaToJ (g.fromDict (o.valueType == 3) (toDict o b)))),
+                      ("dict_conds", .arr (optsGrid.map fun o => .bool (dictCond o (o.valueType == 3) b)))]))
 
 def pathOfJ (j : J) : Option (List Nat) := j.asArr?.bind (·.mapM J.asNat?)
 
